@@ -4,7 +4,7 @@ C11: staging directives move the named data to the named place.
 1. the design model Staging is checked exhaustively by TLC over all its cases
    (directive lists of length <= 2 in both forms, all actions, all schemas,
    missing sources, directory targets (trailing slash), targets that exist
-   already, task outcome DONE / FAILED /
+   already, client sandbox = / != working directory, task outcome DONE / FAILED /
    CANCELED, stage_on_error); the same run is the
    enumerator of the rig's inputs (every initial state is printed);
 2. thorough: every Dev constant set TRUE must break its invariant;
@@ -30,11 +30,11 @@ INVARIANTS = ['TypeOK', 'InvPlaced', 'InvCarried', 'InvMissingFails', 'InvFailur
               'InvMoveRemoves',
               'InvLinkShares', 'InvOutOnlyIfDone', 'InvStageOnError', 'InvFailureLocal']
 DEVS = ['DevTarballSkipped', 'DevCopyIgnoresStatus', 'DevClientSkipsOnError', 'DevCopyUnquoted',
-        'DevDirTestInCwd', 'DevSlashDropped', 'DevLinkNoDirTarget']
+        'DevDirTestInCwd', 'DevSlashDropped', 'DevLinkNoDirTarget', 'DevClientIsCwd']
 EXPECT = {'DevTarballSkipped': 'InvCarried', 'DevCopyIgnoresStatus': 'InvMissingFails',
           'DevClientSkipsOnError': 'InvStageOnError', 'DevCopyUnquoted': 'InvFailureJustified',
           'DevDirTestInCwd': 'InvPlaced', 'DevSlashDropped': 'InvPlaced',
-          'DevLinkNoDirTarget': 'InvFailureJustified'}
+          'DevLinkNoDirTarget': 'InvFailureJustified', 'DevClientIsCwd': 'InvPlaced'}
 
 WORKERS = 8         # the run is bound by the (sequential) enumeration of the initial states
 MON_WORKERS = 1
@@ -69,7 +69,7 @@ def enumerate_cases(chk):
     for txt in tlc.extract_tuples(res.out, 'CASE'):
         c = tlc.parse_value(txt)[1]
         c = {'din': [dict(d) for d in c['din']], 'dout': [dict(d) for d in c['dout']],
-             'oc': c['oc'], 'soe': bool(c['soe'])}
+             'oc': c['oc'], 'soe': bool(c['soe']), 'cs': c['cs']}
         key = repr(c)
         if key not in seen:
             seen.add(key)
@@ -110,6 +110,9 @@ def case_classes(c):
         return [('empty',) + oc]
     if len(ds) == 1:
         d, dr = ds[0], 'in' if nin else 'out'
+        if c['cs'] == 'same':       # client sandbox = working directory of the client
+            return [('cs-same', dr, d['form'], d['act']),
+                    ('cs-same-k', dr, kclass(d['sk']), kclass(d['tk']))]
         ks.append(('form', dr, d['form'], kclass(d['tk']) in ('rel', 'abs', 'omit')))
         ks.append(('src', dr, d['act'], kclass(d['sk']), d['sp'] == 'm'))
         ks.append(('tgt', dr, d['act'], kclass(d['tk'])))
@@ -228,9 +231,9 @@ def judge(chk, traces, kind, conform=True):
             if err == 'C11.FailsTask' and ('COPY' in cls or 'TRANSFER' in cls):
                 found.add('DevCopyIgnoresStatus')
             chk.violation(err, cls, 'real staging pipeline violates %s (%s case: in=%s out=%s '
-                          'outcome=%s stage_on_error=%s)'
+                          'outcome=%s stage_on_error=%s client sandbox %s cwd)'
                           % (err, kind, R_short(case['din']), R_short(case['dout']),
-                             case['oc'], case['soe']),
+                             case['oc'], case['soe'], '=' if case['cs'] == 'same' else '!='),
                           {'rig': 'staging', 'case': case, 'errs': errs})
     if nsoe:
         found.add('DevClientSkipsOnError')
